@@ -13,7 +13,7 @@ using namespace seqc;
 namespace cc = cds::container; namespace ci = cds::intrusive;
 
 namespace {
-struct Base { std::function<void(Ctx&)> post_check() { return std::function<void(Ctx&)>(); } static const bool pop_empty_unconstrained = false; long capacity() { return -1; } bool push_front(long, int) { return false; } bool pop_back(long&, int) { return false; } };
+struct Base { long model_override(const Program&) { return 0; } std::function<void(Ctx&)> post_check() { return std::function<void(Ctx&)>(); } static const bool pop_empty_unconstrained = false; long capacity() { return -1; } bool push_front(long, int) { return false; } bool pop_back(long&, int) { return false; } };
 
 // ---- value containers
 template <class GC, class Q> struct ValQ : Base {
